@@ -195,6 +195,9 @@ def m_sanity(ctx, pre, act, obs, post):
     if not obs['ok']:
         return
     pp = ctx['pp']
+    for _, c in all_units(pre):
+        if sane_container(pp, c):
+            return          # garbage in: the transition that produced the impossible state was reported already
     for name, o in obs['new'].items():
         units = [(None, o)] if not e1.is_plate(o) else [((r, c), o.wells[r, c]) for r in range(o.wells.shape[0])
                                                          for c in range(o.wells.shape[1])]
